@@ -32,6 +32,16 @@ def overlay(ctx):
     # the read: ACC.update(_CONFIG.get((KEY, selector), {}))
     call = a.node.parent.parent if isinstance(a.node.parent, ast.Attribute) else None
     inst = 'read@%d' % len([r for r in reads if r.node.lineno <= a.node.lineno])
+    if isinstance(call, ast.Call) and a.method == 'get' and call.args and isinstance(call.args[0], ast.Name):
+      # the key was put in a temporary first
+      st0 = enclosing_stmt(a.node)
+      d0 = def_of(facts[g.nodes_for(st0)[0].id], call.args[0].id) if g.nodes_for(st0) else None
+      try:
+        k0 = ast.parse(d0, mode='eval').body if d0 else None
+      except SyntaxError:
+        k0 = None
+      if isinstance(k0, ast.Tuple) and len(k0.elts) == 2:
+        call.args[0] = k0
     if not (isinstance(call, ast.Call) and a.method == 'get' and call.args and isinstance(call.args[0], ast.Tuple)
             and len(call.args[0].elts) == 2):
       if a.method == '__getitem__' and isinstance(a.node.parent.slice, ast.Tuple):
@@ -64,6 +74,12 @@ def overlay(ctx):
               'the store key uses `%s` instead of the selector' % u(keyt.elts[1]), f.loc(st), instance=inst + ':selector')
     # which scope strings are read, in which order
     loops = [l for l in node.loops if isinstance(l, ast.For)]
+    if not loops and ('c', 'inherit_scopes', False) in fs:
+      # strict mode handled on its own: exactly the given scope
+      SCn = f.params[1] if len(f.params) > 1 else 'scope_components'
+      ctx.check(kd is not None and kd.replace(' ', '') == "'/'.join(%s)" % SCn, 'C01.overlay', con, 'strict mode reads exactly the given scope',
+                'strict (inherit_scopes=False) mode reads the key `%s`' % kd, f.loc(st), instance='strict')
+      continue
     if not loops:
       raise AnalysisError('_get_bindings: store read is not inside a loop over scope prefixes')
     lp = loops[-1]
@@ -140,7 +156,12 @@ def index_form(ctx, f, g, facts, lp, kd, st, inst, con):
   fs = facts[lpn.id]
   scd = def_of(fs, SC) or ''
   ok = 'current_scope()' in scd and ' or ' in scd
-  ctx.check(ok, 'C01.fresh', con, 'an omitted scope falls back to current_scope() evaluated at call time',
+  if not ok and SC in f.params:
+    # no fallback inside: every caller has to hand in a scope
+    sites = ctx.prog.call_sites_of(f.qual)
+    has_default = any(isinstance(d, ast.Constant) and d.value is None for d in f.node.args.defaults)
+    ok = bool(sites) and not has_default and all(len(c.args) > f.params.index(SC) or any(k.arg == SC for k in c.keywords) for _cf, c in sites)
+  ctx.check(ok, 'C01.fresh', con, 'an omitted scope falls back to current_scope() evaluated at call time (or every caller supplies the scope)',
             'an omitted scope no longer falls back to the scope active at the time of the call', f.loc(), instance='current-scope')
   pref_ok = (sl.lower is None or u(sl.lower) == '0') and sl.step is None and sl.upper is not None and u(sl.upper) == i
   ctx.check(pref_ok, 'C01.overlay', con, "the scope key is '/'.join(<prefix of length i>)",
@@ -176,7 +197,12 @@ def index_form(ctx, f, g, facts, lp, kd, st, inst, con):
         return None
     return None
   args = lp.iter.args
-  for mode, name, want_lo in ((True, 'prefixes', (0, 0)), (False, 'strict', (1, 0))):
+  modes = ((True, 'prefixes', (0, 0)), (False, 'strict', (1, 0)))
+  if ('c', 'inherit_scopes', True) in fs:
+    modes = modes[:1]        # the loop only runs in inheriting mode; strict mode is handled where it is read
+  elif ('c', 'inherit_scopes', False) in fs:
+    modes = modes[1:]
+  for mode, name, want_lo in modes:
     lo = (0, 0) if len(args) == 1 else lin(args[0], mode)
     hi = lin(args[0] if len(args) == 1 else args[1], mode)
     step = (0, 1) if len(args) < 3 else lin(args[2], mode)
